@@ -279,6 +279,20 @@ CLAIMS = {
              "digit), b42f721 (fraction carry and negative whole parts). Trusted: " + TB,
         technique="bounded run-time-contract stand-in with an independent oracle (the deciding method for the numeric relation) + contract-based "
                   "deductive verification of the decoration layers"),
+    "C20": dict(
+        category="other", design="DESIGN.md section 7 C20",
+        text="Mostly bounded. Checked completely (syntactic obligations on the real _csv2numbers.py): every raise in the converter raises RuntimeError, "
+             "main() runs every Converter call inside the handler that prints one line to stderr and exits with status 1, the float coercion is "
+             "guarded by math.isfinite, the CSV file is opened with newline='', next() has a default. Proved (contract-based, real "
+             "_cat_numbers.py): cell_as_string exports a number cell through the 15-digit rounding, an empty cell as '', an error cell as '#REF!', "
+             "any other cell as str(value). The grid round trip (text identical, numbers numerically equal, special floats stay text, "
+             "--no-header/--whitespace/--reverse) is decided by a bounded stand-in with Python's csv module as the reference: no contract "
+             "within reach expresses it (csv module, float() parsing of arbitrary spellings, document round trip).",
+        note="Open known finding F-C20-1 (repeated header cells collapse columns; a repair is a redesign of the row representation). Genuine defects "
+             "repaired: fix: commits 6f0ba33 (nan/inf/1e400 crashed the converter), 69b895c (CR inside quoted cells became LF), 424d4db (empty "
+             "file crashed). Trusted: " + TB,
+        technique="bounded run-time-contract stand-in with the csv module as reference (the deciding method for the round trip) + complete syntactic "
+                  "obligations on the error-reporting shape + contract-based verification of cell_as_string"),
 }
 NA_REASON = "check not built yet (build in progress; see DESIGN.md section 7 for the plan)"
 
